@@ -386,12 +386,61 @@ def _cb_errors(net, start):
     return [e for e in net.log[start:] if e[0] == 'cb_error']
 
 
+class _VT(object):
+    """virtual clock for pilot_manager.py: what is pending happens while wait_pilots sleeps"""
+    def __init__(self):
+        self.now, self.pending = 0.0, []
+
+    def time(self):
+        return self.now
+
+    def sleep(self, dt):
+        self.now += max(0.0, float(dt))
+        todo, self.pending = self.pending, []
+        for fn in todo:
+            fn()
+
+    def __getattr__(self, name):
+        import time as _t
+        return getattr(_t, name)
+
+
+def _real_cancel_request(uids, pid, other):
+    """-> the control message the real client side publishes for this request"""
+    import radical.pilot.pilot_manager as m_pmgr
+    from .c15_hollow import hollow_pmgr, add_pilot
+    cli = HollowSession()
+    pm  = hollow_pmgr(cli, 'pmgr.0000')
+    pilots = {u: add_pilot(pm, u) for u in (pid, other)}
+    url = cli._reg['bridges.%s' % rpc.CONTROL_PUBSUB]['addr_pub']
+    vt, saved = _VT(), m_pmgr.time
+    m_pmgr.time = vt
+
+    def deliver():
+        for u in uids:
+            if pilots[u].state not in rps.FINAL:
+                pm._update_pilot({'uid': u, 'type': 'pilot', 'state': rps.CANCELED})
+    vt.pending.append(deliver)
+    pos = len(cli.net.log)
+    try:
+        if len(uids) == 1:
+            pilots[uids[0]].cancel()
+        else:
+            pm.cancel_pilots(list(uids))
+    finally:
+        m_pmgr.time = saved
+    msgs = [ev[3] for ev in cli.net.log[pos:] if ev[0] == 'pub' and ev[1] == url
+            and isinstance(ev[3], dict) and ev[3].get('cmd') == 'cancel_pilots']
+    return msgs[0] if msgs else None
+
+
 def run_causes(case):
     res = CaseResult()
     runtime = max(1, int(case.get('runtime', 1)))
     late    = max(0, int(case.get('late', 0)))
     ops     = case.get('ops') or []
-    pid, other = 'pilot.0000', 'pilot.0001'
+    # (the other pilot's uid contains this pilot's uid: user-defined uids may do that)
+    pid, other = 'pilot.0000', 'pilot.00001'
 
     causes   = set()
     resolved = []
@@ -436,9 +485,14 @@ def run_causes(case):
                     if mask & 1:
                         is_cause = 'cancel'
                     resolved.append('cancel:%d' % mask)
-                    ctrl.put(rpc.CONTROL_PUBSUB, {'cmd': 'cancel_pilots',
-                                                  'arg': {'pmgr': 'pmgr.0000', 'uids': uids},
-                                                  'fwd': True})
+                    msg = {'cmd': 'cancel_pilots', 'arg': {'pmgr': 'pmgr.0000', 'uids': uids},
+                           'fwd': True}
+                    if uids:
+                        # the request as the real PilotManager.cancel_pilots / Pilot.cancel publishes
+                        # it (a single pilot is named by its bare uid)
+                        msg = _real_cancel_request(uids, pid, other) or msg
+                        res.label('cancel_request_from_real_pmgr')
+                    ctrl.put(rpc.CONTROL_PUBSUB, msg)
                 elif name == 'terminate':
                     is_cause = 'shutdown'
                     resolved.append('terminate')
